@@ -1408,8 +1408,8 @@ func ruleC05Resolve(id string) func(*Checker) {
 						if isB {
 							k, _ = constInt(bo.Y)
 						}
-						if !isB || bo.Op != token.ADD || bo.X != ssa.Value(hops) || k != 1 {
-							okA, why = false, "the hop counter is not passed on plus one"
+						if !isB || bo.Op != token.ADD || bo.X != ssa.Value(hops) || k < 1 {
+							okA, why = false, "the hop counter is not passed on incremented"
 						}
 					}
 				}
